@@ -522,5 +522,174 @@ theorem applied_rateAt (es : List PriceEntry) (txns : List Txn) (tgt : String) (
     exact C07.appliedEntry_spec es txns tgt lk hlk t p h1
       ((C07.mem_usedCommodities txns tgt p.comm).mpr ⟨h2, t, ht, p, hp, rfl⟩)
 
+theorem mapO_of_all {α β} (f : α → Outcome β) : ∀ (l : List α), (∀ a ∈ l, ∃ b, f a = .ok b) → ∃ bs, mapO f l = .ok bs := by
+  intro l
+  induction l with
+  | nil => intro _; exact ⟨[], rfl⟩
+  | cons a t ih =>
+    intro h
+    obtain ⟨b, hb⟩ := h a List.mem_cons_self
+    obtain ⟨bs, hbs⟩ := ih (fun x hx => h x (List.mem_cons_of_mem _ hx))
+    exact ⟨b :: bs, by simp [mapO, hb, hbs]⟩
+
+/-- if every posting converts, the converted stream exists -/
+theorem convertedPosts_of_allConvert (ctx : Ctx) (tgt : String) (hin : ctx.inCommodity = some tgt) (txns : List Txn)
+    (hall : AllConvert ctx.cache tgt txns) : ∃ cps, convertedPosts ctx txns = .ok cps := by
+  have h1 : ∀ t ∈ txns, ∃ cs, convertPrices ctx t = .ok cs := by
+    intro t ht
+    unfold convertPrices
+    rw [hin]
+    exact mapO_of_all _ t.posts (hall t ht)
+  obtain ⟨css, hcss⟩ := mapO_of_all _ txns h1
+  exact ⟨css.flatten.map toBPost, by simp [convertedPosts, convertedAll, hcss, Outcome.map]⟩
+
+/-! ## 4. register report with conversion -/
+
+/-- what `registerConv … = .ok es` unfolds to: the engine on `convStream` -/
+theorem registerConv_ok (sel : RegRow → Bool) (db : List PriceEntry) (txns : List Txn) (tgt : String)
+    (lk : PriceLookup) (hlk : lk ≠ .none) (es : List RegEntry)
+    (h : registerConv sel lk (some tgt) db txns = .ok es) :
+    AllConvert (rcache lk tgt db txns) tgt txns ∧
+      registerEngine sel (convStream (rcache lk tgt db txns) tgt txns) = .ok es := by
+  unfold registerConv at h
+  obtain ⟨stream, hst, he⟩ := (Outcome.bind_ok _ _ _).mp h
+  obtain ⟨e, hall⟩ := converted_stream _ tgt (makeCtx_in lk txns tgt db hlk) txns stream hst
+  rw [e] at he
+  exact ⟨hall, he⟩
+
+theorem convStream_wf (cache : Cache) (tgt : String) (txns : List Txn) (hwf : C03.TxnsWF txns)
+    (hall : AllConvert cache tgt txns) : C03.StreamWF (convStream cache tgt txns) := by
+  intro x hx it hit
+  simp only [convStream, List.mem_map] at hx
+  obtain ⟨t, ht, rfl⟩ := hx
+  simp only [List.mem_map] at hit
+  obtain ⟨p, hp, rfl⟩ := hit
+  obtain ⟨c, hc⟩ := hall t ht p hp
+  exact (convItem_spec cache tgt t p c hc (hwf t ht p hp)).2.2.2
+
+/-- the engine's pre-sort is by the *original* account key of the posting: the sorted items are `convItem` of the
+    postings in `C03.sortedPosts` order (stable sort by the posting's own (commodity, account)) -/
+theorem sortItems_convItems (cache : Cache) (tgt : String) (t : Txn) :
+    Reg.sortItems (t.posts.map (convItem cache tgt t)) = (C03.sortedPosts t).map (convItem cache tgt t) := by
+  unfold Reg.sortItems C03.sortedPosts
+  exact (List.map_mergeSort (r := C03.postLe) (s := itemLe) (f := convItem cache tgt t) (l := t.posts)
+    (fun a _ b _ => by simp [itemLe, C03.postLe, convItem_post])).symm
+
+/-- the per-posting rate a register row carries, given the entry applied: only the txn-time cache reports it -/
+def rateOf (x : Option PriceEntry) (timed : Bool) : Option Dec :=
+  match x with
+  | some e => if timed then some e.rate else none
+  | none => none
+
+theorem convItem_rate (cache : Cache) (tgt : String) (t : Txn) (p : Posting) (c : Converted)
+    (h : convertPosting cache tgt t p = .ok c) :
+    (convItem cache tgt t p).rate = rateOf (C07.appliedEntry cache tgt t p) (C07.isTimed cache) := by
+  have hit : convItem cache tgt t p = ⟨p, c.comm, c.amount, c.rate⟩ := by simp [convItem, h]
+  rw [C07.convertPosting_eq] at h
+  cases ha : C07.appliedEntry cache tgt t p with
+  | none => rw [ha] at h; simp at h; subst h; simp [hit, unchanged, rateOf]
+  | some e =>
+    rw [ha] at h
+    simp only [C07.valued] at h
+    obtain ⟨a, _, hcc⟩ := (Outcome.map_ok _ _ _).mp h
+    subst hcc
+    simp [hit, rateOf]
+
+/-- **register_conv_running_total**: with conversion on, the register without selector has one entry per
+    transaction; entry `i` lists the postings of transaction `i` in the order of their **original**
+    (commodity, account) (`C03.sortedPosts`); row `j` shows the posting itself, the **converted** key
+    (`convKey`: report commodity iff a rate is applied), the per-posting rate (txn-time only), and as running total
+    the exact sum of the converted amounts summed under that converted key: all postings of the transactions before
+    `i`, plus those of transaction `i` at in-entry positions `≤ j` — C03 `running_total_stream` on the converted
+    stream, unfolded with C07. -/
+theorem register_conv_running_total (db : List PriceEntry) (txns : List Txn) (tgt : String) (lk : PriceLookup)
+    (hlk : lk ≠ .none) (hwf : C03.TxnsWF txns) (es : List RegEntry)
+    (h : registerConv selAll lk (some tgt) db txns = .ok es) :
+    es.length = txns.length ∧
+    ∀ i e, es[i]? = some e → ∃ t, txns[i]? = some t ∧ e.txn = t ∧ e.rows.length = t.posts.length ∧
+      ∀ j r, e.rows[j]? = some r → ∃ p, (C03.sortedPosts t)[j]? = some p ∧ r.post = p ∧
+        r.key = convKey (rcache lk tgt db txns) tgt (t, p) ∧
+        r.rate = rateOf (C07.appliedEntry (rcache lk tgt db txns) tgt t p) (C07.isTimed (rcache lk tgt db txns)) ∧
+        r.total.units * E28 =
+          valueSum (rcache lk tgt db txns) tgt (pairsOf (txns.take i)) (convKey (rcache lk tgt db txns) tgt (t, p))
+          + valueSum (rcache lk tgt db txns) tgt (((C03.sortedPosts t).take (j + 1)).map (fun q => (t, q)))
+              (convKey (rcache lk tgt db txns) tgt (t, p)) := by
+  obtain ⟨hall, he⟩ := registerConv_ok selAll db txns tgt lk hlk es h
+  generalize rcache lk tgt db txns = cache at hall he ⊢
+  have hs := C03.running_total_stream (convStream cache tgt txns) es (convStream_wf cache tgt txns hwf hall) he
+  refine ⟨by simpa [convStream] using hs.1, ?_⟩
+  intro i e hi
+  obtain ⟨t', items, hst, htx, hlen, hrows⟩ := hs.2 i e hi
+  simp only [convStream, List.getElem?_map, Option.map_eq_some_iff] at hst
+  obtain ⟨t, ht, hpair⟩ := hst
+  injection hpair with e1 e2
+  subst e1 e2
+  have htm : t ∈ txns := List.mem_of_getElem? ht
+  refine ⟨t, ht, htx, by simpa using hlen, ?_⟩
+  intro j r hj
+  obtain ⟨it, hit, hr, htot⟩ := hrows j r hj
+  rw [sortItems_convItems] at hit htot
+  simp only [List.getElem?_map, Option.map_eq_some_iff] at hit
+  obtain ⟨p, hp, rfl⟩ := hit
+  have hpm : p ∈ t.posts := (C03.sortedPosts_spec t).1.subset (List.mem_of_getElem? hp)
+  obtain ⟨c, hc⟩ := hall t htm p hpm
+  obtain ⟨hpost, hkey, _, _⟩ := convItem_spec cache tgt t p c hc (hwf t htm p hpm)
+  refine ⟨p, hp, by rw [hr.1, hpost], ?_, by rw [hr.2.2, convItem_rate cache tgt t p c hc], ?_⟩
+  · rw [← hkey]
+    simp only [RegRow.key, RItem.key, hr.1, hr.2.1]
+  · rw [htot, Int.add_mul, hkey]
+    have e1 : (convStream cache tgt txns).take i = convStream cache tgt (txns.take i) := by
+      simp [convStream, List.map_take]
+    have hsub : ∀ x ∈ txns.take i, x ∈ txns := fun x hx => List.mem_of_mem_take hx
+    rw [e1, itemsOf_convStream,
+      keySum_convItems cache tgt _ (pairsOf (txns.take i))
+        (pairs_scale _ (fun x hx => hwf x (hsub x hx)))
+        (pairs_convert cache tgt _ (fun x hx => hall x (hsub x hx)))]
+    congr 1
+    have e2 : ((C03.sortedPosts t).map (convItem cache tgt t)).take (j + 1)
+        = (((C03.sortedPosts t).take (j + 1)).map (fun q => (t, q))).map (fun tp => convItem cache tgt tp.1 tp.2) := by
+      rw [← List.map_take, List.map_map]; rfl
+    rw [e2]
+    apply keySum_convItems
+    · intro tp htp
+      obtain ⟨q, hq, rfl⟩ := List.mem_map.mp htp
+      exact hwf t htm q ((C03.sortedPosts_spec t).1.subset (List.mem_of_mem_take hq))
+    · intro tp htp
+      obtain ⟨q, hq, rfl⟩ := List.mem_map.mp htp
+      exact hall t htm q ((C03.sortedPosts_spec t).1.subset (List.mem_of_mem_take hq))
+
+/-- **register_conv_selector_only_hides**: with conversion on, too, the account selector only hides rows: hidden
+    postings are converted and accumulated all the same (entry by entry the rows of the unrestricted report that
+    the selector accepts) -/
+theorem register_conv_selector_only_hides (sel : RegRow → Bool) (lk : PriceLookup) (rc : Option String)
+    (db : List PriceEntry) (txns : List Txn) :
+    registerConv sel lk rc db txns = (registerConv selAll lk rc db txns).map (fun es => es.map (C03.hide sel)) := by
+  unfold registerConv
+  cases convertedStream (reportCtx lk rc db txns) txns with
+  | ok stream => simp only [Outcome.bind]; exact C03.selector_only_hides_stream sel stream
+  | err => rfl
+  | undef => rfl
+
+/-- **register_conv_last_total**: the last running total the converted register shows for a (commodity, account)
+    is the exact sum of everything converted into it — the own sum the converted balance report shows for that key
+    (`balance_conv_own_sum`): the two reports agree with conversion on. -/
+theorem register_conv_last_total (db : List PriceEntry) (txns : List Txn) (tgt : String) (lk : PriceLookup)
+    (hlk : lk ≠ .none) (hwf : C03.TxnsWF txns) (es : List RegEntry)
+    (h : registerConv selAll lk (some tgt) db txns = .ok es) (k : AKey) (r : RegRow)
+    (hl : C03.lastRow k (es.flatMap (·.rows)) = some r) :
+    (∃ cps, convertedPosts (reportCtx lk (some tgt) db txns) txns = .ok cps ∧ r.total.units = C02.ownSum cps k) ∧
+    r.total.units * E28 = valueSum (rcache lk tgt db txns) tgt (pairsOf txns) k := by
+  obtain ⟨hall, he⟩ := registerConv_ok selAll db txns tgt lk hlk es h
+  have hlast := C03.last_total_stream _ es (convStream_wf _ tgt txns hwf hall) he k r hl
+  constructor
+  · -- the balance side sums the same items
+    obtain ⟨cps, hc⟩ := convertedPosts_of_allConvert _ tgt (makeCtx_in lk txns tgt db hlk) txns hall
+    obtain ⟨e, _⟩ := converted_posts _ tgt (makeCtx_in lk txns tgt db hlk) txns cps hc
+    refine ⟨cps, hc, ?_⟩
+    rw [hlast, e, ownSum_items]
+    rfl
+  · rw [hlast, itemsOf_convStream]
+    exact keySum_convItems _ tgt k (pairsOf txns) (pairs_scale txns hwf) (pairs_convert _ tgt txns hall)
+
 end C07b
 end Tackler
